@@ -54,6 +54,10 @@ func DrawFamily(t *rapid.T, f string) GCase {
 		s = spec.SameHandle(t)
 	case "bigauto":
 		s = spec.BigAuto(t)
+	case "manysyms":
+		s = spec.ManySyms(t)
+	case "hugerule":
+		s = spec.HugeRule(t)
 	case "prec":
 		if rapid.Bool().Draw(t, "precbase") {
 			s = spec.Productive(t, smallCfg)
